@@ -493,7 +493,7 @@ def padded_statement(rng: random.Random) -> str:
         "led2 = Led(13)", "u = Ultrasonic(1, 2)", "btn = Button(2)", "sleep(5)", "for i in range(3):\n    pass", "if x:\n    pass", "x = 1", 'target("COM3")',
     ])
     n = rng.choice([800, 3000, 6000, 12000])
-    filler = rng.choice([" ", " ", "\t", "\x0c", "\xa0", "\x1f", " \t", ", ", "( ", ") ", " = ", "\\ "]) * (n // 2 if rng.random() < 0.3 else n)
+    filler = rng.choice([" ", " ", "\t", "\x0c", "\xa0", "\x1f", " \t", ", ", "( ", ") ", " = ", "\\ ", "a ", "1 ", "not ", "-", "[", "a.", "f("]) * (n // 2 if rng.random() < 0.3 else n)
     first = stmt.split("\n")[0]
     rest = stmt[len(first):]
     where = rng.choice(["after_open", "before_close", "tail", "middle", "no_close", "in_string"])
@@ -514,3 +514,37 @@ def padded_statement(rng: random.Random) -> str:
     else:
         line = first + filler + rng.choice(["", "x", "# c"])
     return PREAMBLE + line + rest + "\n"
+
+
+_RUNTIME_EXPRS = ["v", "v + 1", "pot.read()", "w", "flag", "name", "v // 2", "-v", "analog_read(0) + 2000", "len(name)", "v * 0.5", "v > 3",
+                  "(v if flag else 7)", "abs(v - 500)", "int(w)", "float(v)", "str(v)", "xs[0]", "max(v, 3)"]
+
+
+def runtime_arg_text(rng: random.Random) -> str:
+    """A legal statement whose arguments are translatable but only known at run time, in every argument position:
+    validation code that compares or converts its arguments must cope with both constants and run-time expressions."""
+
+    tmpl = rng.choice([t for t in TEMPLATES if "{H}" in t] + [
+        "sv2 = Servo(6, max_pulse_us={H})", "sv2 = Servo(6, min_pulse_us={H})", "sv2 = Servo(6, min_pulse_us={H}, max_pulse_us={H})",
+        "sv2 = Servo(6, min_angle={H}, max_angle={H})", "lcd2 = LCD(rs=12, en=11, d4=5, d5=4, d6=3, d7=2, cols={H}, rows={H})",
+        "lcd.write({H}, {H}, {H})", "lcd.line({H}, {H})", "lcd.progress({H}, {H}, max_value={H}, width={H})", "lcd.brightness({H})",
+        "lcd.animate('scroll', {H}, {H}, speed_ms={H})", "bz.play_tone({H}, {H})", "bz.beep({H}, on_ms={H}, off_ms={H}, times={H})",
+        "bz.sweep({H}, {H}, duration_ms={H}, steps={H})", "bz.melody('siren', tempo={H})", "m.set_speed({H})", "m.ramp({H}, {H})",
+        "m.run_for({H}, {H})", "rgb.set_color({H}, {H}, {H})", "rgb.fade({H}, {H}, {H}, {H}, {H})", "rgb.blink({H}, {H}, {H}, {H}, {H})",
+        "led.blink({H}, {H})", "led.fade_in({H}, {H})", "sv.write({H})", "sv.write_us({H})", "pin_mode({H}, OUTPUT)", "digital_write({H}, {H})",
+        "analog_write({H}, {H})", "x = digital_read({H})", "x = analog_read({H})",
+    ])
+    body = tmpl
+    while "{H}" in body:
+        body = body.replace("{H}", rng.choice(_RUNTIME_EXPRS), 1)
+    head = 'pot = Potentiometer("A0")\nv = pot.read()\nw = v * 0.5\nflag = v > 3\nname = str(v)\nxs = [v, 2]\n'
+    where = rng.choice(["setup", "loop", "branch", "helper"])
+    if where == "setup" or "\n" in body or body.startswith(("def ", "@")):
+        text = head + body + "\n"
+    elif where == "loop":
+        text = head + "while True:\n    " + body + "\n"
+    elif where == "branch":
+        text = head + "if flag:\n    " + body + "\nelse:\n    " + body + "\n"
+    else:
+        text = head + "def act(v, w):\n    " + body + "\nact(v, w)\nact(1, 2.5)\n"
+    return PREAMBLE + text
